@@ -267,6 +267,10 @@ class Metadata(CbMixin, ProgMixin):
                 })
                 self.length += f["length"]
                 self.filenames.add(path[-1])
+        for entry in self.files:
+            full = os.path.normpath(str(entry["full"]))
+            if os.path.isabs(full) or full.split(os.sep)[0] == os.pardir:
+                raise ValueError(f"unsafe path in {self.path}: {full}")
 
     def _map_pieces(self):
         """
